@@ -133,6 +133,9 @@ func (m *multiplicityEval) wraps(fd *ast.FuncDecl, e ast.Expr, env map[types.Obj
 		// the visitor's own Negation: one node (made when the visitor was created)
 		if nt := namedOf(info.TypeOf(x)); nt != nil && nt == model {
 			if fv, ok := info.Uses[x.Sel].(*types.Var); ok && fv.IsField() && fv.Pkg() == m.vm.pkg.Types {
+				if v, followed := m.fieldChain(fv, model, depth); followed {
+					return v
+				}
 				return linN{0, 1, true}
 			}
 		}
@@ -183,6 +186,175 @@ func (m *multiplicityEval) wraps(fd *ast.FuncDecl, e ast.Expr, env map[types.Obj
 		return m.helperWraps(hd, subEnv, subWrap, model, depth+1)
 	}
 	return linN{}
+}
+
+// fieldChain: the visitor's field is filled in a constructor function from a local; the number of model nodes chained
+// below that local when the constructor returns: the root node, plus one per turn of a loop that appends below a tail
+// variable (`n := &Model{}; tail.F = n; tail = n`). The constructor's integer parameter is bound from its call sites,
+// which have to agree. followed is false when the field is not filled that way (the caller then counts one node).
+func (m *multiplicityEval) fieldChain(fv *types.Var, model *types.Named, depth int) (linN, bool) {
+	info := m.vm.pkg.TypesInfo
+	var src ast.Expr
+	var srcFd *ast.FuncDecl
+	count := 0
+	for _, d := range m.decls {
+		if d.Body == nil {
+			continue
+		}
+		ast.Inspect(d.Body, func(n ast.Node) bool {
+			if kv, ok := n.(*ast.KeyValueExpr); ok {
+				if k, ok := kv.Key.(*ast.Ident); ok && info.Uses[k] == types.Object(fv) {
+					src, srcFd = kv.Value, d
+					count++
+				}
+			}
+			return true
+		})
+	}
+	if count != 1 {
+		return linN{}, false
+	}
+	root, ok := ast.Unparen(src).(*ast.Ident)
+	if !ok {
+		return linN{}, false
+	}
+	rootObj := info.Uses[root]
+	def := resolveLocalCopyIgnoringLoops(info, srcFd, root)
+	if def == nil {
+		return linN{}, true
+	}
+	// bind the constructor's parameters from its call sites
+	env := map[types.Object]linN{}
+	fnObj, _ := info.Defs[srcFd.Name].(*types.Func)
+	sites := 0
+	agree := true
+	for _, d := range m.decls {
+		if d.Body == nil || fnObj == nil {
+			continue
+		}
+		ast.Inspect(d.Body, func(n ast.Node) bool {
+			call, ok := n.(*ast.CallExpr)
+			if !ok || calleeOf(info, call) != fnObj {
+				return true
+			}
+			sites++
+			i := 0
+			if srcFd.Type.Params != nil {
+				for _, pl := range srcFd.Type.Params.List {
+					for _, nm := range pl.Names {
+						if i < len(call.Args) {
+							if v := m.lin(d, call.Args[i], nil, depth+1); v.ok {
+								po := info.Defs[nm]
+								if prev, has := env[po]; has && prev != v {
+									agree = false
+								}
+								env[po] = v
+							}
+						}
+						i++
+					}
+				}
+			}
+			return true
+		})
+	}
+	if sites == 0 || !agree {
+		return linN{}, true
+	}
+	total := m.wraps(srcFd, def, env, nil, model, depth+1)
+	if !total.ok {
+		return linN{}, true
+	}
+	// tails: locals that start as the root
+	tails := map[types.Object]bool{}
+	ast.Inspect(srcFd.Body, func(n ast.Node) bool {
+		if id, ok := n.(*ast.Ident); ok {
+			if o := info.Defs[id]; o != nil && o != rootObj {
+				if d := resolveLocalCopyIgnoringLoops(info, srcFd, id); d != nil {
+					if rid, ok := ast.Unparen(d).(*ast.Ident); ok && info.Uses[rid] == rootObj {
+						tails[o] = true
+					}
+				}
+			}
+		}
+		return true
+	})
+	for _, st := range srcFd.Body.List {
+		loop, ok := st.(*ast.ForStmt)
+		if !ok {
+			continue
+		}
+		// body: n := &Model{}; tail.F = n; tail = n
+		var fresh, tail types.Object
+		linked, advanced := false, false
+		var linkField types.Object
+		for _, bs := range loop.Body.List {
+			as, ok := bs.(*ast.AssignStmt)
+			if !ok || len(as.Lhs) != 1 || len(as.Rhs) != 1 {
+				return linN{}, true
+			}
+			switch l := ast.Unparen(as.Lhs[0]).(type) {
+			case *ast.Ident:
+				if as.Tok == token.DEFINE {
+					if one := m.wraps(srcFd, as.Rhs[0], env, nil, model, depth+1); one.ok && one.a == 0 && one.b == 1 {
+						fresh = info.Defs[l]
+						continue
+					}
+					return linN{}, true
+				}
+				if rid, ok := ast.Unparen(as.Rhs[0]).(*ast.Ident); ok && fresh != nil && info.Uses[rid] == fresh && tails[info.Uses[l]] && linked {
+					tail, advanced = info.Uses[l], true
+					continue
+				}
+				return linN{}, true
+			case *ast.SelectorExpr:
+				base, ok := ast.Unparen(l.X).(*ast.Ident)
+				rid, ok2 := ast.Unparen(as.Rhs[0]).(*ast.Ident)
+				if ok && ok2 && tails[info.Uses[base]] && fresh != nil && info.Uses[rid] == fresh && !advanced {
+					linked = true
+					linkField = info.Uses[l.Sel]
+					continue
+				}
+				return linN{}, true
+			default:
+				return linN{}, true
+			}
+		}
+		_ = tail
+		if !linked || !advanced {
+			return linN{}, true
+		}
+		trips := m.tripCount(srcFd, loop, env)
+		if !trips.ok {
+			return linN{}, true
+		}
+		total = linN{total.a + trips.a, total.b + trips.b, true}
+		// a later store into the root's own link field replaces the first link of the chain: the nodes below are lost
+		for _, d := range m.decls {
+			if d.Body == nil || d == srcFd || linkField == nil {
+				continue
+			}
+			cut := false
+			ast.Inspect(d.Body, func(n ast.Node) bool {
+				as, ok := n.(*ast.AssignStmt)
+				if !ok {
+					return true
+				}
+				for _, l := range as.Lhs {
+					if sel, ok := ast.Unparen(l).(*ast.SelectorExpr); ok && info.Uses[sel.Sel] == linkField {
+						if inner, ok := ast.Unparen(sel.X).(*ast.SelectorExpr); ok && info.Uses[inner.Sel] == types.Object(fv) {
+							cut = true
+						}
+					}
+				}
+				return true
+			})
+			if cut {
+				return linN{0, 1, true}, true
+			}
+		}
+	}
+	return total, true
 }
 
 // helperWraps: the wrap count of what hd returns. Shape: optional definitions, one counting loop whose body is
@@ -303,7 +475,7 @@ func (m *multiplicityEval) tripCount(fd *ast.FuncDecl, loop *ast.ForStmt, env ma
 // resolveLocalCopyIgnoringLoops: the defining expression of a local that is defined once outside any loop (writes
 // inside loops are the accumulation).
 func resolveLocalCopyIgnoringLoops(info *types.Info, fd *ast.FuncDecl, id *ast.Ident) ast.Expr {
-	obj := info.Uses[id]
+	obj := info.ObjectOf(id)
 	var def ast.Expr
 	n := 0
 	for _, st := range fd.Body.List {
